@@ -17,7 +17,9 @@ fn t2d(s: &str, lang: &text2num::Language) -> String {
 
 fn one_stream(ctx: &Ctx, acc: &mut Acc, l: L, lang: &text2num::Language, syms: &[&str]) {
     acc.states += 1;
-    let toks: Vec<HTok> = syms.iter().enumerate().map(|(i, w)| HTok::new(i, w)).collect();
+    // a leading '~' marks a token that declares itself unrelated to its predecessor
+    let toks: Vec<HTok> = syms.iter().enumerate().map(|(i, w)| if w.len() > 1 && w.starts_with('~') { HTok::decorated(i, w) } else { HTok::new(i, w) }).collect();
+    let hinted = toks.iter().any(|t| t.sep);
     acc.transitions += toks.len() as u64;
     let occs = match guard(|| stream::find(&toks, lang, 0.0)) {
         Ok(o) => o,
@@ -62,7 +64,7 @@ fn one_stream(ctx: &Ctx, acc: &mut Acc, l: L, lang: &text2num::Language, syms: &
     }
     // clause 2: a phrase the validator accepts is seen by the scanner as exactly one number with the same digits
     let only_words = syms.iter().all(|w| w.chars().any(|c| c.is_alphanumeric()));
-    if only_words {
+    if only_words && !hinted {
         let phrase = syms.join(" ");
         acc.traces += 1;
         acc.transitions += syms.len() as u64;
@@ -120,12 +122,21 @@ pub fn run(tier: Tier) -> i32 {
                 one_stream(&ctx, acc, l, &lang, syms)
             }
         }));
+        // streams with 'unrelated to my predecessor' hints: clauses 1 and 3 must hold on them as well
+        let mut hinted: Vec<String> = cls.iter().filter(|w| w.chars().any(|c| c.is_alphabetic())).take(8).cloned().collect();
+        let plain = hinted.clone();
+        hinted.extend(plain.iter().map(|w| format!("~{w}")));
+        total.merge(explore::all_sequences2(&hinted, tier.pick(3, 4), |syms, acc| {
+            if syms.iter().any(|s| s.starts_with('~')) {
+                one_stream(&ctx, acc, l, &lang, syms)
+            }
+        }));
         total.sample(json!({"lang": l.code(), "stream": cls.iter().take(5).collect::<Vec<_>>()}));
     }
     let cov = json!({
         "exhaustive": true,
         "rule": "every token stream of length <= k over the alphabet (no hints, no annotation, threshold 0): scanner vs validator compared on three clauses; non-trivial = non-decimal occurrences re-validated",
-        "bounds": {"sigma_full_depth": kf, "sigma_cls_depth": kc},
+        "bounds": {"sigma_full_depth": kf, "sigma_cls_depth": kc, "hinted_streams": "8 class words, each plain or '~' (unrelated to its predecessor), depth <= 3 (thorough 4); clauses 1 and 3"},
         "alphabets": sizes,
     });
     ctx.finish(total, cov, vec![
